@@ -36,6 +36,20 @@ def build_cases(ctx):
             add(cfg, text, "damaged:" + kind)
         for text, stmts, m in pf.spelled(rng, cfg, nd // 3):
             add(cfg, text, "wellformed")
+    # long tokens: running time must not blow up with the length of one lexeme (quadratic scans, regular
+    # expressions that back-track): bare words, near-identifiers, digit strings, quoted strings of 30..400
+    # characters with a character at the end that makes them something else
+    for n in (30, 48, 120, 400):
+        base = ("MGS_MOC_NA_IMAGE_PRODUCT_E0100001_CALIBRATED" * 10)[:n]
+        longs = [base, base + "-V2", base + ".", base + "_", base.lower() + "-", "9" * n, "9" * n + "x", "1" * n + ".5e",
+                 "A" + "_" * n + "B", "A" + "_B" * (n // 2), "A" + "_B" * (n // 2) + "_", "\"" + "x " * n + "\"",
+                 "\"" + "x-\n " * (n // 4) + "\"", "a" * n + ":" + "b" * n, "^" + base, base + "*/", "2#" + "10" * n + "#",
+                 "16#" + "fF" * n + "#", "2001-01-01T10:00:00." + "5" * n, "<" + "m" * n + ">"]
+        for w in longs:
+            for cfg in pf.CFGS:
+                add(cfg, "ID = %s\nEND\n" % w, "long-token")
+                add(cfg, "%s = 1\n" % w, "long-token")
+                add(cfg, "GROUP = %s\nEND_GROUP = %s\n" % (w, w), "long-token")
     for name, text in pf.corpus_texts():
         for cfg in pf.CFGS:
             add(cfg, text, "testsdata")
